@@ -224,7 +224,7 @@ def mutate(r, toks):
     return toks
 
 
-VNAMES = ["T", "T", "U", "n", "x"]
+VNAMES = ["T", "T", "U", "n", "x", "nat", "Option"]   # incl. variables named like builtins
 
 
 def gen_var_ty(r, depth, nparams, const=False):
@@ -271,6 +271,82 @@ def cs(s):
     return f'"{s}"'
 
 
+# ----------------------------------------------------------------------------- shadowing definitions
+
+PY_BUILTINS = ["list", "tuple", "float", "str", "dict", "set", "len", "object", "type", "range"]
+_RESERVED = {"guppy", "Generic", "L", "SHADOW", "declared_in_function", "Shapes", "TvUser", "int"}
+
+
+def shadow_modules(builtin_names):
+    """Two scratch modules whose structs are named like every entry of Globals.builtin_defs() and like
+    Python builtins, declared at module level, in a function body and in a class body, alternately plain
+    and generic.  Module A shadows everything but `int` (its field type); module B shadows `int`, the
+    Python builtins and binds a type variable to a builtin name.  -> (modules, {key: (name, params, simple)})"""
+    import keyword
+    ok = lambda n: n.isidentifier() and not keyword.iskeyword(n) and not n.startswith("_") and n not in _RESERVED  # noqa: E731
+    names_a = sorted({n for n in list(builtin_names) + PY_BUILTINS if ok(n)})
+    names_b = ["int"] + [n for n in PY_BUILTINS if ok(n)]
+    tv = next((n for n in ("SizedIter", "Range", "Option") if n in builtin_names and n not in names_b), None)
+    keys, mods = {}, []
+
+    def decl(mod, scope, name, generic, field, indent):
+        key = f"{mod}:{scope}:{name}"
+        keys[key] = (name, [TY] if generic else [], field)
+        head = f"class {name}(Generic[L]):" if generic else f"class {name}:"
+        body = "x: L" if generic else f"x: {field}"
+        return [f"{indent}@guppy.struct", f"{indent}{head}", f"{indent}    {body}", f"{indent}SHADOW[{key!r}] = {name}", ""]
+
+    for mod, names, field in (("c31_shadow_a", names_a, "int"), ("c31_shadow_b", names_b, "bool")):
+        src = ["from typing import Generic", "from guppylang import guppy",
+               'L = guppy.type_var("L", copyable=False, droppable=False)', "SHADOW = {}", ""]
+        tag = mod[-1].upper()
+        for i, n in enumerate(names):
+            src += decl(tag, "mod", n, i % 2 == 1, field, "")
+        if tag == "B" and tv:
+            src += [f'{tv} = guppy.type_var("{tv}", copyable=False, droppable=False)', "@guppy.struct",
+                    f"class TvUser(Generic[{tv}]):", f"    x: {tv}", f"SHADOW['B:mod:TvUser'] = TvUser", ""]
+            keys["B:mod:TvUser"] = ("TvUser", [TY], field)
+        src += ["def declared_in_function():"]
+        sub = names[::3] if tag == "A" else names
+        for i, n in enumerate(sub):
+            src += decl(tag, "fn", n, i % 2 == 0, field, "    ")
+        src += ["declared_in_function()", "", "class Shapes:"]
+        sub = names[1::4] if tag == "A" else names
+        for i, n in enumerate(sub):
+            src += decl(tag, "cls", n, i % 2 == 0, field, "    ")
+        mods.append({"name": mod, "src": "\n".join(src) + "\n"})
+    return mods, keys
+
+
+def gen_shadow_case(r, key, keys):
+    """a type around the shadowing struct `key`, using only names that still mean the builtin in its scope"""
+    name, params, field = keys[key]
+    simple_a = [["num", "int"], ["none"], ["tuple", []], ["tuple", [["num", "int"], ["none"]]]]
+    simple_b = [["app", "bool", []], ["num", "nat"], ["none"], ["tuple", [["app", "bool", []], ["num", "nat"]]],
+                ["app", "array", [["app", "bool", []], ["nat", 2]]], ["app", "Option", [["num", "nat"]]]]
+    simple = simple_a if key.startswith("A:") else simple_b
+    def arg():
+        a = r.choice(simple)
+        return a if a[0] != "tuple" else r.choice([x for x in simple if x[0] != "tuple"])   # sole tuple argument = known finding
+    leaf = ["app", key, [arg()] if params else []]
+    mod, scope, _ = key.split(":")
+    generic_same = [k for k, v in keys.items() if k.startswith(f"{mod}:{scope}:") and v[1] and k != key]
+    c = r.random()
+    if c < 0.3:
+        t = leaf
+    elif c < 0.6:
+        t = ["tuple", [leaf, r.choice(simple)] if r.random() < 0.5 else [r.choice(simple), leaf, leaf]]
+    elif c < 0.8 and generic_same:
+        t = ["app", r.choice(generic_same), [leaf]]
+    elif key.startswith("B:"):
+        t = r.choice([["app", "array", [leaf, ["nat", 3]]], ["app", "Option", [leaf]],
+                      ["app", "Option", [["app", "array", [["tuple", [leaf, r.choice(simple)]], ["nat", 2]]]]]])
+    else:
+        t = ["tuple", [["tuple", [leaf, leaf]], r.choice(simple)]]
+    used = sorted(_names(t) & set(keys))
+    return ["rt", t, {"shadow": {k: [keys[k][0], len(keys[k][1])] for k in used}, "module": "c31_shadow_" + key[0].lower()}]
+
+
 def coq_ty(t):
     k = t[0]
     if k == "num":
@@ -280,7 +356,7 @@ def coq_ty(t):
     if k == "tuple":
         return "(TTuple [" + "; ".join(coq_ty(x) for x in t[1]) + "])"
     if k == "app":
-        return f"(TApp {cs(t[1])} [" + "; ".join(coq_ty(x) for x in t[2]) + "])"
+        return f"(TApp {cs(t[1].split(':')[-1])} [" + "; ".join(coq_ty(x) for x in t[2]) + "])"
     if k == "nat":
         return f"(CNat {t[1]}%N)"
     if k == "bound":
@@ -305,6 +381,8 @@ def coq_tok(s):
 def coq_env():
     items = ['("int", DNum KInt)', '("nat", DNum KNat)', '("float", DNum KFloat)', '("tuple", DTuple)']
     for name, (ps, c, d) in ENV.items():
+        if ":" in name:
+            continue
         pp = "; ".join("DPNat" if p[0] == "nat" else f"DPType {str(p[1]).lower()} {str(p[2]).lower()}" for p in ps)
         items.append(f'({cs(name)}, DApp [{pp}] {str(c).lower()} {str(d).lower()})')
     return "[" + "; ".join(items) + "]"
@@ -314,10 +392,19 @@ HDR = """From Coq Require Import String List NArith Bool.
 From V.C31 Require Import Tokens GenPrinter Model Spec Ser.
 Import ListNotations. Open Scope string_scope.
 Definition E : env := %s.
-Definition rt (t : ty) := (map tok_text (print t), ser_opt ser_py (py_parse (print t)), ser_opt ser_ty (parse E (print t)), wf E t).
+Definition rtE (S : env) (t : ty) := (map tok_text (print t), ser_opt ser_py (py_parse (print t)), ser_opt ser_ty (parse (S ++ E)%%list (print t)), wf (S ++ E)%%list t).
+Definition rt := rtE [].
+Definition sh (n : string) (k : nat) : string * defn := (n, DApp (repeat (DPType false false) k) true true).
 Definition tk (l : list token) := (ser_opt ser_py (py_parse l), ser_opt ser_ty (parse E l)).
 Definition fn (t : ty) := (map tok_text (print t), ser_tags (tags (print t))).
 """
+
+
+def _coq_rt(c):
+    if len(c) > 2 and c[2].get("shadow"):
+        S = "; ".join(f"sh {cs(n)} {k}" for n, k in c[2]["shadow"].values())
+        return f"rtE [{S}] {coq_ty(c[1])}"
+    return f"rt {coq_ty(c[1])}"
 
 
 def coq_file(cases):
@@ -325,7 +412,7 @@ def coq_file(cases):
     for c in cases:
         kinds[c[0]].append(c)
     out = [HDR % coq_env()]
-    out.append("Eval vm_compute in [" + ";\n".join(f"rt {coq_ty(c[1])}" for c in kinds["rt"]) + "].")
+    out.append("Eval vm_compute in [" + ";\n".join(_coq_rt(c) for c in kinds["rt"]) + "].")
     out.append("Eval vm_compute in [" + ";\n".join("tk [" + "; ".join(coq_tok(s) for s in c[1]) + "]" for c in kinds["toks"]) + "].")
     out.append("Eval vm_compute in [" + ";\n".join(f"fn {coq_ty(c[1])}" for c in kinds["fun"]) + "].")
     return "\n".join(out)
@@ -419,6 +506,19 @@ def run(ctx):
     payload = {"structs": STRUCT_SRC, "struct_names": STRUCT_NAMES, "scoped_names": [n for v in SCOPES.values() for n in v], "cases": [c for c in cases if c[0] == "rt"]}
     first = json.loads(ctx.impl("impl_types.py", payload))
     rt_printed = [x["toks"] for x in first["results"] if "toks" in x]
+    # structs shadowing every builtin definition name (known only at run time) and Python builtins
+    mods, shkeys = shadow_modules(first.get("builtin_names", []))
+    for k, (nm, ps, _f) in shkeys.items():
+        ENV[k] = (ps, True, True)
+    payload["shadow_modules"] = mods
+    klist = sorted(shkeys)
+    if ctx.quick:      # every name at module level, a seeded sample of the nested ones
+        klist = [k for k in klist if ":mod:" in k] + r.sample([k for k in klist if ":mod:" not in k], min(120, len([k for k in klist if ":mod:" not in k])))
+    n_shadow = 0
+    for rep in range(1 if ctx.quick else 3):
+        for k in klist:
+            cases.append(gen_shadow_case(r, k, shkeys))
+            n_shadow += 1
     for c in cases:
         if c[0] == "toks" and c[1] is None:
             c[1] = mutate(r, r.choice(rt_printed)) if rt_printed else gen_toks(r)
@@ -427,7 +527,7 @@ def run(ctx):
     res = impl["results"]
     # --- the declared environment is the real one
     real_env = {e[0]: ([tuple(p) for p in e[2]], e[3], e[4]) for e in impl["env"]}
-    if real_env != {k: ([tuple(p) for p in v[0]], v[1], v[2]) for k, v in ENV.items()}:
+    if real_env != {k: ([tuple(p) for p in v[0]], v[1], v[2]) for k, v in ENV.items() if ":" not in k}:
         ctx.report("env-mismatch", "correspondence", "type definitions in scope",
                    {"declared": {k: str(v) for k, v in ENV.items()}, "real": {k: str(v) for k, v in real_env.items()}},
                    found_input=False)
@@ -468,6 +568,8 @@ def run(ctx):
                 hist[t[1]] += 1
             elif t[1] in STRUCT_NAMES:
                 hist["struct"] += 1
+            elif ":" in t[1]:
+                hist["shadowing_struct"] = hist.get("shadowing_struct", 0) + 1
             elif t[1] in ENV:
                 hist["scoped_struct"] = hist.get("scoped_struct", 0) + 1
             if len(t[2]) == 1 and t[2][0][0] == "tuple":
@@ -519,6 +621,7 @@ def run(ctx):
                          {"type": c[1], "printed": x["str"], "read_back": x["back"], "error": x["err"],
                           "expected": "type_from_ast(ast.parse(str(ty)).body[0].value) == ty",
                           "replay": REPLAY % ("rt", json.dumps(c[1]))})
+            stats["rt_shadowing"] = stats.get("rt_shadowing", 0) + (len(c) > 2)
             scoped = bool(_names(c[1]) & {n for v in SCOPES.values() for n in v})
             stats["rt_scoped"] = stats.get("rt_scoped", 0) + scoped
             if x.get("bad_struct_names"):
@@ -554,7 +657,8 @@ def run(ctx):
         else:
             # model-independent search: fewer distinct variable-name tokens than distinct variables
             dvars = _distinct_vars(c[1])
-            vtoks = {t for t in x["toks"] if _is_var_token(t)}
+            disp = {n for (n, *_r) in _vars(c[1])}     # variables may be named like definitions (`nat`, `Option`)
+            vtoks = {t for t in x["toks"] if _is_var_token(t) or t.lstrip("?").split("'")[0] in disp}
             if len(vtoks) < len(dvars):
                 specfail(f"names:{x['str']}", "distinct_vars_distinct_names: fewer printed variable names than distinct variables",
                          {"type": c[1], "printed": x["str"], "distinct_variables": sorted(map(str, dvars)),
@@ -602,7 +706,9 @@ def run(ctx):
         rule="rt: non-empty tuple or applied definition; toks: Python accepts the stream as an expression of the fragment; fun: at least two distinct variables printed",
         traces_validated_against_impl=len(cases) if model is not None else 0,
         disagreements=disagreements, spec_failures=spec_fail, known_finding_witnesses_replayed=known_hits, case_counts=stats, constructor_histogram=hist,
-        generated_table=tinfo, samples=samples, notes=ctx.notes)
+        generated_table=tinfo, samples=samples, notes=ctx.notes,
+        shadowed_names={"builtin_defs": len(first.get("builtin_names", [])), "shadowing_structs_declared": len(shkeys),
+                        "cases": n_shadow, "declaration_errors": impl.get("shadow_errors", {})})
     return ctx.finish(LEVEL, cov, [
         "a printed string is identified with its token list; blanks are irrelevant to Python's tokenizer",
         "names printed for definitions resolve, in the scope where the string is read, to the same definitions (env_ok / wf)",
